@@ -49,13 +49,16 @@ def Task.notScheduled (t : Task) : Fml :=
   .and ([.eq t.sVar (numT t.pastPoint), .eq t.eVar (numT t.pastPoint)] ++
         (if t.isVar then [.eq t.dVar (numT 0)] else []))
 
+/-- the list `set_assertions` works on: release date and deadline, then the type-specific assertions -/
+def Task.guarded (t : Task) : List Fml := t.releaseDue ++ t.baseList
+
 /-- `Task.set_assertions` -/
 def Task.setAssertions (t : Task) : List Fml :=
-  if t.optional then [.ite (.bvar (.sched t.name)) (.and t.baseList) t.notScheduled]
-  else t.baseList
+  if t.optional then [.ite (.bvar (.sched t.name)) (.and t.guarded) t.notScheduled]
+  else t.guarded
 
 /-- everything a freshly created task asserts -/
-def Task.initAsserts (t : Task) : List Fml := t.releaseDue ++ t.setAssertions
+def Task.initAsserts (t : Task) : List Fml := t.setAssertions
 
 /-! ### Resources (resource.py, task.py:add_required_resource) -/
 
